@@ -177,6 +177,9 @@ func runC06(c *Ctx) {
 		// ... and Store.UnspentOutputs really carries those two exclusions in both of its passes (findEligibleOutputs has
 		// no lease / unconfirmed-spender filter of its own): the shared spendability-pass rule, from this property's side
 		checkSpendPasses(c, "C06-R1", false)
+		// "confirmed the requested number of times" is judged from the heights the store records; they are those of the
+		// current chain only if a disconnected block's transactions leave it together with the tip stamp (shared with C15-R1)
+		checkCoupledRollback(c, "C06-R1")
 		// confirms(): canonical form
 		if cf := walletFn(c, "C06-R1", "confirms"); cf != nil {
 			okForm := true
